@@ -71,6 +71,9 @@ def judgeMsg (i : Json) (idx : Nat) (accs : List Acc) (r : MRec) : Except String
     else throw s!"{tag}: sent the task back to waiting"
   if r.m == "started" && r.aSt == "running" && r.bSt != "running" then
     a := { a with subUsed := 0 }
+  -- a vacated job is back in the batch queue: submission succeeded, the execution retries used stay used
+  if r.m.startsWith "vacated/" && r.aSt == "submitted" then
+    a := { a with subUsed := 0 }
   return putAcc accs a
 
 def judgeLaunch (i : Json) (idx : Nat) (accs : List Acc) (l : Int × String × Nat) : Except String (List Acc) := do
@@ -105,7 +108,7 @@ def judgeObs (i : Json) (idx : Nat) (accs : List Acc) (ob : Json) : Except Strin
     accs ← judgeMsg i idx accs r
   return accs
 
-def judge (i : Json) (c : CaseX) (o : Json) : Option String :=
+def judge (i : Json) (c : CaseV) (o : Json) : Option String :=
   if !c.graph.wf then some "hypothesis-violated: a task of the extracted graph lacks a standard output (Graph.wf)"
   else
     let rec go (idx : Nat) (accs : List Acc) : List Json → Option String
@@ -118,10 +121,10 @@ def judge (i : Json) (c : CaseX) (o : Json) : Option String :=
 
 def handle (i o : Json) : Except String Reply := do
   if let some r := crashReply? i then return r
-  let c ← parseCaseX i
+  let c ← parseCaseV i
   match judge i c o with
-  | some w => return { model := modelObsX c, holds := false, why := w }
-  | none => return { model := modelObsX c, holds := true }
+  | some w => return { model := modelObsV c, holds := false, why := w }
+  | none => return { model := modelObsV c, holds := true }
 
 end CylcModel.DrvC02
 
